@@ -208,7 +208,8 @@ MinLen(s, bits, V(_)) ==
   IF mn \in AluImm /\ k = 2 /\ o[2].t = "i" /\ w \in {8, 16, 32} THEN
      LET v == V(o[2])
          iw == w \div 8
-         sx8 == LE(v, iw) = SignExt(LE(v, 1), iw)
+         \* the sign-extended imm8 form is owed when the value AS WRITTEN is in -128..127
+         sx8 == v >= -128 /\ v <= 127 /\ ~(o[2].sty = "h" /\ v < 0)
          acc == o[1].t = "r" /\ o[1].n = 0
          general == p66(w) + 1 + RMLen(o[1]) + (IF w = 8 THEN 1 ELSE IF sx8 THEN 1 ELSE iw)
          accum == p66(w) + 1 + iw
